@@ -738,7 +738,8 @@ static int rtr_handle_cache_response_pdu(struct rtr_socket *rtr_socket, char *pd
 		if (rtr_socket->session_id != cr_pdu->session_id) {
 			const char txt[] =
 				"Wrong session_id in Cache Response PDU"; //TODO: Appendrtr_socket->session_id to string
-			rtr_send_error_pdu_from_host(rtr_socket, NULL, 0, CORRUPT_DATA, txt, sizeof(txt));
+			rtr_send_error_pdu_from_host(rtr_socket, pdu, sizeof(struct pdu_cache_response), CORRUPT_DATA, txt,
+						     sizeof(txt));
 			rtr_change_socket_state(rtr_socket, RTR_ERROR_FATAL);
 			return RTR_ERROR;
 		}
